@@ -82,7 +82,9 @@ def cases(tier, rng):
     for ch in list(range(-2, 19)) + [None]:
         yield Case("note.new", ["C", 4, None, ch], "channel")
     yield Case("note.new", ["C", 4, 200, 99], "both-bad")
-    for bad in ["H", "c", "C-x", "C-4-5", "-4", "C#x", "Cis", "1", " C"]:
+    near = [nm + ch for nm in ("C", "Bb", "F##") for ch in ("\n", "\r", " ", "\t", "\x00", "\n\n", "\u2028")] + \
+           [ch + nm for nm in ("C", "Bb") for ch in ("\n", " ")] + ["C\n#", "B\nb", "C\n-4"]
+    for bad in ["H", "c", "C-x", "C-4-5", "-4", "C#x", "Cis", "1", " C"] + near:
         yield Case("note.new", [bad, 4, None, None], "malformed")
     for s in ["C-4", "Bb-0", "F##-10", "A-007", "G#b-3"]:
         yield Case("note.new", [s, 9, None, None], "text")
